@@ -180,6 +180,7 @@ class StepOracle(object):
         probs = consistency_problems(w)
         if probs:
             self.fail('tree-inconsistent', idx, 'after %s (%s): %s' % (op, ans, '; '.join(probs[:4])))
+        return self.failed is not None
 
 
 # ---------------------------------------------------------------------------------------------
@@ -425,11 +426,10 @@ def run(chk, replay=None):
     drv = chk.driver('drv_dom')
     thorough = chk.tier == 'thorough'
     # ---- exhaustive over small universes (every op in every reachable state)
+    # (attached, #elements, #text nodes, depth, cap on #states); the 2+2 universes close (all states reached)
     plans = [(False, 2, 2, 5, 4000), (True, 2, 2, 5, 4000)]
     if thorough:
         plans += [(False, 3, 2, 4, 1500), (True, 3, 1, 4, 1500)]
-    else:
-        plans = [(False, 2, 2, 3, 400), (True, 2, 1, 3, 400)]
     for attached, ne, nt, depth, cap in plans:
         ns, na, closed = exhaustive(chk, drv, attached, ne, nt, depth, cap)
         chk.notes.append('exhaustive %s universe %d elements + %d text: %d distinct states, %d (state, op) pairs, depth<=%d%s'
